@@ -29,7 +29,8 @@ BOUNDS = {
              'results; 2 processes (= 2 crashes) with 1..2 saves each, crash before any of the <= 13 file-system steps of a '
              'process or none, symbolic written prefix; (b) stub algorithm, 4 checkpoints, interruption after the save of any '
              'checkpoint or kill before any file-system step; (c) TEBD (chi_max 2: real truncation) and two-site DMRG with / '
-             'without mixer on a 6-site TFI chain, every checkpoint, pickle output, CONCRETE numerics',
+             'without mixer and with a chi_list {0: 2, 2: 3, 4: 4} (7 sweeps) on a 6-site TFI chain, every checkpoint, pickle output, '
+             'CONCRETE numerics',
     'thorough': '(a) 3 processes with 1..2 saves; (b) 5 checkpoints; (c) additionally two-site TDVP, ExpMPOEvolution, single-site '
                 'DMRG with mixer',
 }
@@ -120,7 +121,8 @@ def save_protocol_case(ctx, ext, n_proc, max_saves):
         for proc in range(n_proc):
             crash_at = choice(ctx, f'crash{proc}', MAX_STEPS + 1)
             start_out, start_backup = None, None
-            had_complete = []  # versions loadable when the save in progress started
+            # versions loadable at the last quiescent point (process start, start of the save in progress)
+            had_complete = [v for v in (_loadable(fs, nm) for nm in names) if v is not None]
             crashed = False
             fs.begin_process(crash_at if crash_at < MAX_STEPS else None)
             try:
@@ -140,10 +142,19 @@ def save_protocol_case(ctx, ext, n_proc, max_saves):
                 names.add(str(sim.output_filename))
                 names.add(str(sim._backup_filename))
                 start_out, start_backup = _state_of(fs, sim.output_filename), _state_of(fs, sim._backup_filename)
+                if had_complete:
+                    # the start / resume itself (__init__, fix_output_filenames) must not destroy the last complete results
+                    now = [v for v in (_loadable(fs, nm) for nm in names) if v is not None]
+                    if not ctx.prove(bool(now) and max(now) >= max(had_complete),
+                                     f"{'resume' if loaded is not None else 'start'}: initialisation keeps the complete results file "
+                                     f'(output or backup) it found; afterwards out={start_out}, backup={start_backup}'):
+                        raise StopPath()
                 n_saves = 1 + choice(ctx, f'saves{proc}', max_saves)
                 for s in range(n_saves):
                     version += 1
-                    had_complete = [v for v in (_loadable(fs, nm) for nm in names) if v is not None]
+                    cur = [v for v in (_loadable(fs, nm) for nm in names) if v is not None]
+                    if cur:
+                        had_complete = cur
                     results = {'version': version, 'simulation_parameters': sim.options.as_dict(), 'finished_run': False,
                                'version_info': dict(sim.results['version_info']), 'measurements': {'x': list(range(version))}}
                     sim.save_results(results)
@@ -179,7 +190,7 @@ def save_protocol_case(ctx, ext, n_proc, max_saves):
                 ctx.prove(any(v >= max(had_complete) for v in survivors),
                           f'crash #{n_crashes}: the surviving file is from the previous or the current checkpoint; {state}')
             else:
-                ctx.prove(True, 'no complete file existed before this save')
+                ctx.prove(True, 'no complete file existed before this process / save')
     except StopPath:
         pass
     finally:
@@ -382,10 +393,18 @@ def bookkeeping_case(ctx, n_total, ext='pkl'):
 
 
 # ======================================================================================== (c) real engines
-def _engine_options(engine, fn, mixer):
+def _engine_options(engine, fn, mixer, chi_list=None):
     base = dict(model_class='TFIChain', model_params=dict(L=6, J=1., g=1.2, bc_MPS='finite', conserve=None),
                 initial_state_params=dict(method='lat_product_state', product_state=[['up'], ['down']]),
                 output_filename=fn, save_every_x_seconds=0., save_psi=True)
+    if chi_list is not None:
+        # bond dimension raised in steps during the run (keys = sweep numbers); json turns the keys into strings
+        cl = {int(k): int(v) for k, v in chi_list.items()}
+        n_sw = max(cl) + 3
+        base.update(algorithm_class=engine, model_params=dict(L=6, J=1., g=1.0, bc_MPS='finite', conserve=None),
+                    algorithm_params=dict(mixer=mixer, max_sweeps=n_sw, min_sweeps=n_sw, N_sweeps_check=1, chi_list=cl,
+                                          trunc_params=dict(svd_min=1.e-12)))
+        return 'GroundStateSearch', base
     if 'DMRG' in engine:
         base.update(algorithm_class=engine,
                     algorithm_params=dict(mixer=mixer, max_sweeps=4, min_sweeps=4, N_sweeps_check=1, trunc_params=dict(chi_max=3, svd_min=1.e-10)))
@@ -400,13 +419,13 @@ def _engine_options(engine, fn, mixer):
 _REF = {}
 
 
-def _reference(engine, mixer):
+def _reference(engine, mixer, chi_list=None):
     """uninterrupted run (cached per process: deterministic)"""
-    key = (engine, mixer)
+    key = (engine, mixer, repr(sorted((chi_list or {}).items())))
     if key not in _REF:
         from tenpy.simulations import time_evolution, ground_state_search
         with tempfile.TemporaryDirectory(prefix='verif_c18_') as td:
-            clsname, o = _engine_options(engine, os.path.join(td, 'ref.pkl'), mixer)
+            clsname, o = _engine_options(engine, os.path.join(td, 'ref.pkl'), mixer, chi_list)
             cls = getattr(time_evolution, clsname, None) or getattr(ground_state_search, clsname)
             sim = cls(o, setup_logging=False)
             count = [0]
@@ -423,15 +442,15 @@ def _reference(engine, mixer):
     return _REF[key]
 
 
-def engines_case(ctx, engine, mixer=None, n_checkpoints=4):
+def engines_case(ctx, engine, mixer=None, n_checkpoints=4, chi_list=None):
     from tenpy.simulations import time_evolution, ground_state_search
-    ref, n_cp = _reference(engine, mixer)
+    ref, n_cp = _reference(engine, mixer, chi_list)
     ctx.prove(n_cp == n_checkpoints, 'number of checkpoints of the uninterrupted run')
     c = 1 + choice(ctx, 'checkpoint', n_checkpoints)
     ctx.note(f'interrupted_at_checkpoint_{c}')
     with tempfile.TemporaryDirectory(prefix='verif_c18_') as td:
         fn = os.path.join(td, 'run.pkl')
-        clsname, o = _engine_options(engine, fn, mixer)
+        clsname, o = _engine_options(engine, fn, mixer, chi_list)
         cls = getattr(time_evolution, clsname, None) or getattr(ground_state_search, clsname)
         try:
             res = _run_sim(cls(o, setup_logging=False), interrupt_at=c)
@@ -556,4 +575,7 @@ def CASES(tier, seed):
     for engine, mixer in engines:
         nm = f'engines[{engine}' + ('' if mixer is None else f',mixer={mixer}') + ']'
         cases.append(dict(name=nm, fn='engines_case', params=dict(engine=engine, mixer=mixer), opts=dict(oc)))
+    # chi_list with several thresholds inside the run: chi_max has to be restored from the last threshold passed
+    cases.append(dict(name='engines[TwoSiteDMRGEngine,mixer=False,chi_list={0:2,2:3,4:4}]', fn='engines_case',
+                      params=dict(engine='TwoSiteDMRGEngine', mixer=False, chi_list={'0': 2, '2': 3, '4': 4}, n_checkpoints=7), opts=dict(oc)))
     return cases
